@@ -14,6 +14,7 @@ import (
 	"testing"
 	"time"
 
+	"github.com/snapcore/snapd/overlord/configstate/config"
 	"github.com/snapcore/snapd/overlord/snapstate/sequence"
 	"github.com/snapcore/snapd/overlord/state"
 	"github.com/snapcore/snapd/snap"
@@ -21,7 +22,9 @@ import (
 )
 
 type c15Op struct {
-	K     string `json:"k"` // hold syshold proceed reset refreshed tick
+	K     string `json:"k"` // hold syshold proceed reset refreshed tick phase2 allhold snapholds gate
+	// allhold: the option core refresh.hold: "unset", "forever" or "time" (T = offset from the base time)
+	Mode string `json:"mode,omitempty"`
 	Level int    `json:"level,omitempty"`
 	G     int    `json:"g,omitempty"`
 	Dur   int64  `json:"dur,omitempty"`
@@ -190,6 +193,15 @@ func c15Random(r *vh.Rand, explicit bool) c15In {
 			in.Ops = append(in.Ops, c15Op{K: "reset", S: r.Range(1, n)})
 		case x < 67+5:
 			in.Ops = append(in.Ops, c15Op{K: "phase2"})
+			if r.Chance(1, 2) {
+				// the system-wide hold; times far in the past or the future, so that the auto-refresh gate (which reads the real
+				// clock, not the package clock) agrees with the history's clock
+				op := c15Op{K: "allhold", Mode: []string{"unset", "forever", "time", "time"}[r.Intn(4)]}
+				if op.Mode == "time" {
+					op.T = c15Pick(r, []int64{-c15H, 36500 * c15D})
+				}
+				in.Ops = append(in.Ops, op, c15Op{K: "gate"}, c15Op{K: "snapholds"})
+			}
 		case x < 75:
 			in.Ops = append(in.Ops, c15Op{K: "refreshed", S: r.Range(1, n)})
 			g.events = append(g.events, g.now)
@@ -228,6 +240,15 @@ func c15Scoped() []c15In {
 			{K: "hold", G: 2, Snaps: []int{1}}, {K: "reset", S: 1}, {K: "refreshed", S: 1}, {K: "tick", D: 100*c15D - 1}, {K: "tick", D: 1},
 			{K: "tick", D: 1}, {K: "proceed", G: 0, Snaps: []int{2}}, {K: "tick", D: 200 * c15D}}})
 	}
+	// the system-wide hold core refresh.hold: SnapHolds around its end (package clock), the auto-refresh gate
+	for _, mode := range []string{"forever", "time"} {
+		out = append(out, c15In{N: 2, LR: []int64{-c15H, -c15H}, Ops: []c15Op{{K: "snapholds"}, {K: "gate"},
+			{K: "syshold", Level: 1, Snaps: []int{1}, T: 5 * c15H}, {K: "allhold", Mode: mode, T: 10 * c15H}, {K: "snapholds"}, {K: "phase2"},
+			{K: "tick", D: 10*c15H - 1}, {K: "snapholds"}, {K: "tick", D: 1}, {K: "snapholds"}, {K: "tick", D: 1}, {K: "snapholds"},
+			{K: "allhold", Mode: "unset"}, {K: "snapholds"}, {K: "gate"}}})
+	}
+	out = append(out, c15In{N: 2, LR: []int64{-c15H, -c15H}, Ops: []c15Op{{K: "allhold", Mode: "forever"}, {K: "gate"}, {K: "tick", D: 200 * c15D}, {K: "gate"},
+		{K: "snapholds"}, {K: "phase2"}, {K: "allhold", Mode: "time", T: 36500 * c15D}, {K: "gate"}, {K: "allhold", Mode: "time", T: -c15H}, {K: "gate"}, {K: "snapholds"}}})
 	// the witness of C15_explicit_duration_refuted: explicit durations are not bounded by 48 h per episode
 	out = append(out, c15In{N: 2, LR: []int64{-c15H, -c15H}, Ops: []c15Op{{K: "hold", G: 1, Snaps: []int{2}}, {K: "tick", D: 47 * c15H},
 		{K: "hold", G: 1, Dur: 47 * c15H, Snaps: []int{2}}, {K: "tick", D: 2 * c15H}}})
@@ -404,6 +425,50 @@ func c15Exec(in c15In) vh.Out {
 			sort.Ints(ids)
 			coqOp = fmt.Sprintf("(AutoFilter %s %s)", c15Ns(all), c15Ns(ids))
 			jsRes = fmt.Sprintf("selected %v", ids)
+		case "allhold":
+			tr := config.NewTransaction(st)
+			switch op.Mode {
+			case "unset":
+				tr.Set("core", "refresh.hold", nil)
+				coqOp = "(SetAllHold None)"
+			case "forever":
+				tr.Set("core", "refresh.hold", "forever")
+				coqOp = "(SetAllHold (Some None))"
+			default:
+				u := c15Base.Add(time.Duration(op.T))
+				tr.Set("core", "refresh.hold", u.Format(time.RFC3339Nano))
+				coqOp = "(SetAllHold (Some (Some " + c15Z(c15Abs(u)) + ")))"
+			}
+			tr.Commit()
+		case "snapholds":
+			var all []int
+			var names []string
+			for i := 1; i <= in.N; i++ {
+				all = append(all, i)
+				names = append(names, c15Name(i))
+			}
+			holds, err := SnapHolds(st, names)
+			if err != nil {
+				panic(err)
+			}
+			var sys []int
+			for _, i := range all {
+				for _, h := range holds[c15Name(i)] {
+					if h == "system" {
+						sys = append(sys, i)
+						break
+					}
+				}
+			}
+			coqOp = fmt.Sprintf("(SnapHoldsQuery %s %s)", c15Ns(all), c15Ns(sys))
+			jsRes = fmt.Sprintf("system holds %v", sys)
+		case "gate":
+			held, _, err := newAutoRefresh(st).isRefreshHeld()
+			if err != nil {
+				panic(err)
+			}
+			coqOp = fmt.Sprintf("(GateQuery %s)", vh.CoqBool(held))
+			jsRes = fmt.Sprintf("auto-refresh held back: %v", held)
 		case "tick":
 			if op.D < 0 {
 				panic("negative tick")
